@@ -92,6 +92,10 @@ SeqMatches(es, gs) == Len(es) = Len(gs) /\ \A i \in 1..Len(es) : RRMatches(es[i]
 QMatches(es, gs) == Len(es) = Len(gs) /\ \A i \in 1..Len(es) :
                       NameMatches(es[i].mode, es[i].name, gs[i].name) /\ es[i].qtype = gs[i].qtype /\ es[i].qclass = gs[i].qclass
 SecOf(s, k) == SelectSeq(s.rrs, LAMBDA x : x.sec = k)
+\* the names alone: every owner and every RDATA reads back as given (a legal pointer to the wrong name fails here and
+\* nowhere else: C13's "the suffix found at the target is the suffix of the name that was given")
+NamesMatch(es, gs) == Len(es) = Len(gs) => \A i \in 1..Len(es) :
+                        NameMatches(es[i].mode, es[i].owner, gs[i].owner) /\ RdataMatches(es[i].mode, es[i].type, es[i].rdata, gs[i].rdata)
 
 \* ---- C13: every pointer targets the first octet of a literal label of a name that starts earlier
 RECURSIVE Lit(_, _, _)
